@@ -1,3 +1,5 @@
 """Importing this package registers every sidecar contract."""
 from . import specs  # noqa
 from . import c_closest  # noqa
+from . import geom  # noqa
+from . import c_cdiffraction  # noqa
